@@ -314,6 +314,11 @@ func (ab *rulesPair) equalizeGroups(ra, rb *nsxRule) []change {
 			return
 		}
 		gb := getGroup(lb[0], ab.b.groups)
+		// Leave group unchanged that isn't defined by Netspoc.
+		if gb == nil {
+			ga.needed = true
+			return
+		}
 		// No need to change name of group in rule from ga to gb
 		// if gb is known to have values of ga.
 		if gb.nameOnDevice == ga.Id {
